@@ -53,7 +53,7 @@ def shapes(max_levels, max_leaves):
                 yield (n0, comps)
 
 
-NAME_STYLES = ['padded', 'padded_shared', 'unpadded', 'mixed_case']
+NAME_STYLES = ['padded', 'padded_shared', 'unpadded', 'mixed_case', 'slashed']
 
 
 def node_names(style, level_idx, n, rng):
@@ -65,6 +65,11 @@ def node_names(style, level_idx, n, rng):
         return [f'n{i:03d}' for i in range(n)]
     if style == 'unpadded':               # '10' < '9' as strings
         return [str(i + 5) for i in range(n)]
+    if style == 'slashed':                # 'A' + '/' + 'B/C' = 'A/B' + '/' + 'C': joined names are ambiguous
+        letters = 'ABCD'
+        pool = [a for a in letters] + [f'{a}/{b}' for a in letters for b in letters] + \
+               [f'{a}/{b}/{c}' for a in letters for b in letters for c in letters]
+        return rng.sample(pool[:max(n + 8, 20)], n) if n <= 70 else [f's{i}' for i in range(n)]
     pool = ['B', 'a', 'A1', 'b', 'Ab', 'aB', '_x', 'Z', 'z9', 'z10', 'C c', 'c/d', "q'", 'é', '0', '00']
     pool = pool + [f'X{i}' for i in range(64)]
     return rng.sample(pool[:max(n + 4, 16)], n)
